@@ -7,6 +7,7 @@ import (
 	"io"
 	"math/big"
 	"sort"
+	"strconv"
 	"strings"
 	"sync"
 	"time"
@@ -289,7 +290,14 @@ func c15Scalar(s *schema.Node, stored string, got *jval, sc *c15Scenario, main s
 	switch s.Type {
 	case "string", "binary", "bits":
 		return wantStr(stored)
-	case "int8", "int16", "int32", "uint8", "uint16", "uint32", "decimal64":
+	case "decimal64":
+		// the library holds a decimal64 as a float64: what must come back is that float64
+		a, e1 := strconv.ParseFloat(got.s, 64)
+		b, e2 := strconv.ParseFloat(stored, 64)
+		if got.kind != 'n' || e1 != nil || e2 != nil || a != b {
+			return fmt.Sprintf("expected JSON number %s, found %c %q", stored, got.kind, got.s)
+		}
+	case "int8", "int16", "int32", "uint8", "uint16", "uint32":
 		if got.kind != 'n' || !numEq(got.s, stored) {
 			return fmt.Sprintf("expected JSON number %s, found %c %q", stored, got.kind, got.s)
 		}
